@@ -138,7 +138,9 @@ impl<Wr: Write> HtmlSerializer<Wr> {
                     "&nbsp;"
                 },
                 _ => {
-                    //  0xC2 not followed by 0xA0 (not NBSP), so keep looking.
+                    //  0xC2 not followed by 0xA0 (not NBSP): write the byte as it is
+                    //  and keep looking.
+                    self.writer.write_all(&bytes[next_special..search_start])?;
                     continue;
                 },
             };
